@@ -286,7 +286,13 @@ func (ch *channel) Free() {
 
 // receive is called by the connection to receive a message.
 func (ch *channel) receive(msg pmpx.Message) status.Status {
-	s := ch.acquire()
+	// The connection looks the channel up and then receives into it, meanwhile
+	// the channel can be closed and freed by the user and the send loop.
+	// Messages for an already freed channel are dropped.
+	s, ok := ch.tryAcquire()
+	if !ok {
+		return status.OK
+	}
 	defer ch.release()
 
 	// Ignore messages if closed
@@ -326,6 +332,25 @@ func (ch *channel) acquire() *channelState {
 }
 
 // release decrements the internal refs counter.
+// tryAcquire acquires the channel state unless the channel has already been freed.
+func (ch *channel) tryAcquire() (*channelState, bool) {
+	for {
+		refs := ch.refs.Load()
+		if refs <= 0 {
+			return nil, false
+		}
+		if ch.refs.CompareAndSwap(refs, refs+1) {
+			break
+		}
+	}
+
+	s := ch.state.Load()
+	if s == nil {
+		panic("acquire of freed channel")
+	}
+	return s, true
+}
+
 func (ch *channel) release() {
 	refs := ch.refs.Add(-1)
 	if refs > 0 {
